@@ -73,21 +73,36 @@ a header; `cue export` of that file exits 0; class toml-lenient-redefinition). -
 theorem C12_toml_sem_false : ¬ C12_toml_sem_stmt :=
   Toml.sem_false
 
-/-- What holds: on EVERY document the specification accepts, the decoder succeeds and yields
-the same data.  (Hence also: whenever the decoder reports an error, or dereferences its stale
-array pointer, the document is invalid TOML.) -/
-theorem C12_toml_sem_partial (evs : List Ev) (fs : List Fact) (h : tomlSpec evs = .ok fs) :
+/-- What is believed to hold: on EVERY document the specification accepts, the decoder succeeds
+and yields the same data (hence: whenever the decoder reports an error, or dereferences its
+stale array pointer, the document is invalid TOML).
+-- OPEN: proved below for documents without `[[array table]]` headers; the general case is
+checked by exhaustive evaluation (every spec-accepted stream up to depth 4 over 8 keys and 6
+expression shapes, 1.3 million prefixes, Proofs/TomlSem.lean header) and on every generated
+document of every run (op `tomldata`), not proved. -/
+def C12_toml_sem_partial_stmt : Prop :=
+  ∀ (evs : List Ev) (fs : List Fact), tomlSpec evs = .ok fs →
+    ∃ fs', decode evs = .ok fs' ∧ SameData fs fs'
+
+/-- Proved part: every document WITHOUT `[[…]]` headers (tables, sub-tables in any order,
+implicit super-tables, dotted keys, inline tables, static arrays, any depth) that the
+specification accepts is accepted by the decoder with the same data. -/
+theorem C12_toml_sem_partial_noarrays (evs : List Ev) (fs : List Fact)
+    (hna : ∀ e ∈ evs, ∀ ks, e ≠ .arrayTable ks) (h : tomlSpec evs = .ok fs) :
     ∃ fs', decode evs = .ok fs' ∧ SameData fs fs' :=
-  Toml.sem_partial evs fs h
+  Toml.sem_partial_noarrays evs fs hna h
 
-/-- Every emission of the encoder is valid TOML with the meaning of the tree. -/
-theorem C12_toml_emit_valid (t : Tree) (evs : List Ev) (hs : SafeTree t) (he : emit t = some evs) :
-    ∃ fs, tomlSpec evs = .ok fs ∧ SameData fs (t.facts []) :=
-  Toml.emit_valid t evs hs he
+/-- Every emission of the encoder is valid TOML with the meaning of the tree.
+-- OPEN: not proved; the driver op `tomlround` evaluates exactly this on every generated tree
+(the specification must accept the model's emission with the facts of the tree), and
+`C12_toml_roundtrip` is proved directly on the decoder model. -/
+def C12_toml_emit_valid_stmt : Prop :=
+  ∀ (t : Tree) (evs : List Ev), SafeTree t → emit t = some evs →
+    ∃ fs, tomlSpec evs = .ok fs ∧ SameData fs (t.facts [])
 
--- non-vacuity: a document with an array of tables, a sub-table of its last element and a
--- dotted key is accepted by the specification
-example : (tomlSpec [.arrayTable [[97]], .table [[97], [98]], .kv [[99], [100]] (.sc ⟨1, [49]⟩),
-    .arrayTable [[97]]]).toOption.isSome = true := by decide
+-- non-vacuity: a document without array tables (a sub-table before its super-table, a dotted
+-- key, an inline table with a dotted key) is accepted by the specification
+example : (tomlSpec [.table [[97], [98]], .table [[97]], .kv [[99], [100]] (.sc ⟨1, [49]⟩),
+    .kv [[101]] (.inl [([[102], [103]], .arr [.sc ⟨3, [116]⟩])])]).toOption.isSome = true := by decide
 
 end CueVerif.C12
